@@ -551,6 +551,25 @@ impl Node {
         walk(self, &mut 1, &mut vec![], &mut vec![], allow_open)
     }
 
+    /// like `refs_valid(false)` for back-references, but group *conditions* may name any group
+    pub fn backrefs_valid(&self) -> bool {
+        fn strip(n: &Node) -> Node {
+            let mut m = n.clone();
+            match &mut m {
+                GroupExists(_) => return Empty,
+                CondGroup(_, y, no) => return Alt(vec![strip(y), strip(no)]),
+                _ => {
+                    for c in m.children_mut() {
+                        let s = strip(c);
+                        *c = s;
+                    }
+                }
+            }
+            m
+        }
+        strip(self).refs_valid(false)
+    }
+
     /// every group index referenced exists somewhere in the pattern (the crate's own requirement
     /// is weaker than refs_valid: the group must have been *opened* before the reference)
     pub fn max_ref(&self) -> usize {
